@@ -658,8 +658,14 @@ func (m *Machine) f64to32(t *Term) *Term {
 		return mkConst(32, f32bits(float32(f64frombits(t.C))))
 	}
 	if t.Op == "f32to64" {
-		// exact for every non-NaN value (harnesses assume non-NaN floats)
-		return t.Args[0]
+		// float32 -> float64 -> float32 is the identity for every number, both zeros, denormals and
+		// infinities; for a NaN the hardware conversion sets the quiet bit (a signalling NaN comes back
+		// quiet, payload otherwise preserved)
+		a := t.Args[0]
+		exp := tBin("bvand", a, mkConst(32, 0x7f800000))
+		mant := tBin("bvand", a, mkConst(32, 0x007fffff))
+		isNaN := tAnd(tEq(exp, mkConst(32, 0x7f800000)), tNot(tEq(mant, mkConst(32, 0))))
+		return tIte(isNaN, tBin("bvor", a, mkConst(32, 0x00400000)), a)
 	}
 	m.abort("float64->float32 conversion of a symbolic value is not encoded")
 	return nil
